@@ -66,7 +66,7 @@ theorem inv_enlarge (s : State) (min bs : Nat) (hi : Inv s)
     let s2 := enlarge (moveFwd s min) min bs
     Inv s2 ∧ s2.next + min ≤ s2.bufSize ∧ s2.cb = s.cb ∧ s2.cblk = s.cblk ∧ s2.cnext = s.cnext ∧
     s2.cavail = s.cavail ∧ s2.src = s.src ∧ s2.term = s.term ∧ s2.position = s.position ∧
-    s2.fatal = s.fatal ∧ s2.eof = s.eof := by
+    s2.fatal = s.fatal ∧ s2.eof = s.eof ∧ s2.later = s.later := by
   intro s2
   have hi1 := inv_moveFwd s min hi
   have hroom := moveFwd_room s min
@@ -78,8 +78,8 @@ theorem inv_enlarge (s : State) (min bs : Nat) (hi : Inv s)
       simp only [s2, enlarge, hgt, if_true]
     rw [e]
     refine ⟨{ cbIn := ?_, bufLt := by simp; omega, clientEq := hi1.clientEq, prov := hi1.prov,
-              eofSrc := hi1.eofSrc, srcOk := hi1.srcOk }, by simp; omega, by simp, by simp, by simp,
-            by simp, by simp, by simp, by simp, by simp, by simp⟩
+              eofSrc := hi1.eofSrc, srcOk := hi1.srcOk, laterOk := hi1.laterOk }, by simp; omega, by simp, by simp, by simp,
+            by simp, by simp, by simp, by simp, by simp, by simp, by simp⟩
     have := hi1.cbIn
     simp only [moveFwd_bufSize, moveFwd_cb] at *
     show 0 + s.cb.length ≤ bs
@@ -87,7 +87,7 @@ theorem inv_enlarge (s : State) (min bs : Nat) (hi : Inv s)
   · simp only [hgt, if_false] at hg
     have e : s2 = moveFwd s min := by simp only [s2, enlarge, hgt, if_false]
     rw [e]
-    refine ⟨hi1, ?_, by simp, by simp, by simp, by simp, by simp, by simp, by simp, by simp, by simp⟩
+    refine ⟨hi1, ?_, by simp, by simp, by simp, by simp, by simp, by simp, by simp, by simp, by simp, by simp⟩
     simp at hgt ⊢
     rcases hroom with h | h
     · rw [h]; omega
@@ -122,7 +122,7 @@ theorem aheadLoop_spec (s : State) (min : Nat) (hi : Inv s) (hf : s.fatal = fals
     · exact { cbIn := by simp [s'], bufLt := hi.bufLt,
               clientEq := by simp [s']; omega,
               prov := ⟨[], [], by simp [s']⟩, eofSrc := hi.eofSrc,
-              srcOk := hi.srcOk }
+              srcOk := hi.srcOk, laterOk := hi.laterOk }
     · simp [remaining, s', hz, h3']
   case case3 s h1 h2 s' h3 =>
     have hc := hi.clientEq
@@ -132,14 +132,14 @@ theorem aheadLoop_spec (s : State) (min : Nat) (hi : Inv s) (hf : s.fatal = fals
       { cbIn := by simp [s'], bufLt := hi.bufLt, clientEq := by simp [s']; omega,
         prov := ⟨[], [], by simp [s']⟩,
         eofSrc := hi.eofSrc,
-        srcOk := hi.srcOk }
+        srcOk := hi.srcOk, laterOk := hi.laterOk }
     have hw : (s'.cblk.drop s'.cnext).take s'.cavail = s.cb ++ s.cblk.drop s.cnext := by
       rw [client_take s' hi'.clientEq]
       show s.cblk.drop (s.cnext - s.cb.length) = _
       rw [← drop_split s.cblk (s.cnext - s.cb.length) s.cnext (by omega), ← hp]
     refine ⟨hi', rfl, rfl, ?_, ?_, ?_, hf⟩
     · rw [remaining_eq s hc, remaining_eq s' hi'.clientEq]
-      show [] ++ s.cblk.drop (s.cnext - s.cb.length) ++ s.src.flatten = _
+      show [] ++ s.cblk.drop (s.cnext - s.cb.length) ++ tailBytes s = _
       rw [← drop_split s.cblk (s.cnext - s.cb.length) s.cnext (by omega), ← hp]
       simp
     · rw [hw, remaining_eq s hc]; simp [List.append_assoc]
@@ -147,12 +147,12 @@ theorem aheadLoop_spec (s : State) (min : Nat) (hi : Inv s) (hf : s.fatal = fals
   case case4 s h1 h2 hca s1 he =>
     have hi1 := inv_moveFwd s min hi
     have he' : s.eof = true := by simpa [s1] using he
-    have ⟨hsrc, hterm⟩ := hi.eofSrc he'
+    have ⟨hsrc, hlat, hterm⟩ := hi.eofSrc he'
     have hc := hi.clientEq
     have hrem : remaining s = s.cb := by
-      rw [remaining_eq s hc, hsrc]
+      rw [remaining_eq s hc]
       have : s.cblk.drop s.cnext = [] := List.drop_of_length_le (by omega)
-      simp [this]
+      simp [this, tailBytes, hsrc, hlat]
     refine ⟨hi1, by simp [s1], by simp [s1], remaining_moveFwd s min, by simp [s1, hf], ?_⟩
     by_cases hm : min = 0
     · left
@@ -167,47 +167,59 @@ theorem aheadLoop_spec (s : State) (min : Nat) (hi : Inv s) (hf : s.fatal = fals
       · have : ¬ s.cb.length ≥ min := fun hh => h1 ⟨hh, hl⟩
         omega
       · omega
-  case case5 s h1 h2 hca s1 he hsrc hterm =>
+  case case5 s h1 h2 hca s1 he hsrc nxt more hlat ih =>
+    have hi1 := inv_moveFwd s min hi
+    have hc := hi.clientEq
+    have he' : s1.eof = false := by simpa using he
+    have hin : Inv { s1 with src := nxt, later := more } :=
+      { cbIn := hi1.cbIn, bufLt := hi1.bufLt, clientEq := hi1.clientEq, prov := hi1.prov,
+        eofSrc := by intro h; simp [he'] at h,
+        srcOk := hi.laterOk nxt (by simp [hlat]),
+        laterOk := fun n hn => hi.laterOk n (by simp [hlat, hn]) }
+    have hg := ih hin (by simp [s1, hf])
+    apply good_trans s _ min _ ?_ (by simp [s1]) (by simp [s1]) hg
+    simp [remaining, s1, hsrc, hlat]
+  case case6 s h1 h2 hca s1 he hsrc hlat hterm =>
     have hi1 := inv_moveFwd s min hi
     have hc := hi.clientEq
     have hterm' : s.term = .err := by simpa [s1] using hterm
     have hrem : remaining s = s.cb := by
-      rw [remaining_eq s hc, hsrc]
+      rw [remaining_eq s hc]
       have : s.cblk.drop s.cnext = [] := List.drop_of_length_le (by omega)
-      simp [this]
+      simp [this, tailBytes, hsrc, hlat]
     refine ⟨?_, by simp [s1], by simp [s1], ?_, rfl, ?_, hterm'⟩
     · exact { cbIn := hi1.cbIn, bufLt := hi1.bufLt, clientEq := by simp,
-              prov := ⟨s1.cb, [], by simp⟩, eofSrc := hi1.eofSrc, srcOk := hi1.srcOk }
-    · rw [hrem]; simp [remaining, s1, hsrc]
+              prov := ⟨s1.cb, [], by simp⟩, eofSrc := hi1.eofSrc, srcOk := hi1.srcOk, laterOk := hi1.laterOk }
+    · rw [hrem]; simp [remaining, s1, hsrc, hlat]
     · rw [hrem]
       by_cases hl : s.cb.length > 0
       · have : ¬ s.cb.length ≥ min := fun hh => h1 ⟨hh, hl⟩
         omega
       · have : ¬ (s.cblk.length ≥ s.cavail + s.cb.length ∧ s.cavail + s.cb.length ≥ min) := h2
         omega
-  case case6 s h1 h2 hca s1 he hsrc hterm =>
+  case case7 s h1 h2 hca s1 he hsrc hlat hterm =>
     have hi1 := inv_moveFwd s min hi
     have hc := hi.clientEq
     have hterm' : s.term = .eof := by simpa [s1] using hterm
     have hrem : remaining s = s.cb := by
-      rw [remaining_eq s hc, hsrc]
+      rw [remaining_eq s hc]
       have : s.cblk.drop s.cnext = [] := List.drop_of_length_le (by omega)
-      simp [this]
+      simp [this, tailBytes, hsrc, hlat]
     refine ⟨?_, by simp [s1], by simp [s1], ?_, by simp [s1, hf], ?_⟩
     · exact { cbIn := hi1.cbIn, bufLt := hi1.bufLt, clientEq := by simp,
               prov := ⟨s1.cb, [], by simp⟩,
-              eofSrc := by intro _; simp [s1, hsrc, hterm'], srcOk := hi1.srcOk }
-    · simp [remaining, s1, hsrc]; left; exact hca
+              eofSrc := by intro _; simp [s1, hsrc, hlat, hterm'], srcOk := hi1.srcOk, laterOk := hi1.laterOk }
+    · simp [remaining, s1, hsrc, hlat]; left; exact hca
     · rw [hrem]
       by_cases hl : s.cb.length > 0
       · have : ¬ s.cb.length ≥ min := fun hh => h1 ⟨hh, hl⟩
         right; exact ⟨by omega, by simp [s1], hterm'⟩
       · have : ¬ (s.cblk.length ≥ s.cavail + s.cb.length ∧ s.cavail + s.cb.length ≥ min) := h2
         right; exact ⟨by omega, by simp [s1], hterm'⟩
-  case case7 s h1 h2 hca s1 he rest hsrc =>
+  case case8 s h1 h2 hca s1 he rest hsrc =>
     exfalso
     exact hi.srcOk [] (by simp [hsrc]) rfl
-  case case8 s h1 h2 hca s1 he b bs rest hsrc ih =>
+  case case9 s h1 h2 hca s1 he b bs rest hsrc ih =>
     have hi1 := inv_moveFwd s min hi
     have hc := hi.clientEq
     have he' : s1.eof = false := by simpa using he
@@ -216,13 +228,14 @@ theorem aheadLoop_spec (s : State) (min : Nat) (hi : Inv s) (hf : s.fatal = fals
         prov := ⟨s1.cb, [], by simp⟩,
         eofSrc := by intro h; simp [he'] at h,
         srcOk := by
-          intro x hx; apply hi.srcOk x; rw [hsrc]; exact List.mem_cons_of_mem _ hx }
+          intro x hx; apply hi.srcOk x; rw [hsrc]; exact List.mem_cons_of_mem _ hx,
+        laterOk := hi1.laterOk }
     have hg := ih hin (by simp [s1, hf])
     apply good_trans s _ min _ ?_ (by simp [s1]) (by simp [s1]) hg
-    rw [remaining_eq s hc, hsrc]
+    rw [remaining_eq s hc]
     have : s.cblk.drop s.cnext = [] := List.drop_of_length_le (by omega)
-    simp [remaining, s1, this]
-  case case9 s h1 h2 hca s1 hg =>
+    simp [remaining, s1, this, tailBytes, hsrc]
+  case case10 s h1 h2 hca s1 hg =>
     exfalso
     have hi1 := inv_moveFwd s min hi
     by_cases hgt : min > s1.bufSize
@@ -230,7 +243,7 @@ theorem aheadLoop_spec (s : State) (min : Nat) (hi : Inv s) (hf : s.fatal = fals
       obtain ⟨r, hr1, _, _⟩ := grow_ok s1.bufSize min hi1.bufLt hmin hgt
       rw [hr1] at hg; cases hg
     · simp only [hgt, if_false] at hg; cases hg
-  case case10 s h1 h2 hca s1 bs hg s2 tc htc =>
+  case case11 s h1 h2 hca s1 bs hg s2 tc htc =>
     exfalso
     have hs2 : s2 = enlarge (moveFwd s min) min bs := rfl
     obtain ⟨hi2, hroom, e1, e2, e3, e4, _⟩ := inv_enlarge s min bs hi hg hmin
@@ -243,10 +256,10 @@ theorem aheadLoop_spec (s : State) (min : Nat) (hi : Inv s) (hf : s.fatal = fals
     have hcb : s2.cb.length = s.cb.length := by rw [e1]
     have hcav : s2.cavail = s.cavail := e4
     split at htc <;> split at htc <;> omega
-  case case11 s h1 h2 hca s1 bs hg s2 tc htc ih =>
+  case case12 s h1 h2 hca s1 bs hg s2 tc htc ih =>
     have hs2 : s2 = enlarge (moveFwd s min) min bs := rfl
-    obtain ⟨hi2, hroom, e1, e2, e3, e4, e5, e6, e7, e8, e9⟩ := inv_enlarge s min bs hi hg hmin
-    rw [← hs2] at hi2 hroom e1 e2 e3 e4 e5 e6 e7 e8 e9
+    obtain ⟨hi2, hroom, e1, e2, e3, e4, e5, e6, e7, e8, e9, e10⟩ := inv_enlarge s min bs hi hg hmin
+    rw [← hs2] at hi2 hroom e1 e2 e3 e4 e5 e6 e7 e8 e9 e10
     have hlt := copy_branch_lt s min hi h1 h2
     have htcle : tc ≤ s2.cavail := tocopy_le s2 min
     have hfit : s2.next + s2.cb.length + tc ≤ s2.bufSize := by
@@ -262,7 +275,7 @@ theorem aheadLoop_spec (s : State) (min : Nat) (hi : Inv s) (hf : s.fatal = fals
         simp; omega
       refine { cbIn := by simp; omega, bufLt := hi2.bufLt, clientEq := by simp; omega,
                prov := ⟨old, cur ++ (s2.cblk.drop s2.cnext).take tc, by simp [p1], by simp; omega, ?_, ?_⟩,
-               eofSrc := hi2.eofSrc, srcOk := hi2.srcOk }
+               eofSrc := hi2.eofSrc, srcOk := hi2.srcOk, laterOk := hi2.laterOk }
       · simp only [List.length_append, hlen]
         have : s2.cnext + tc - (cur.length + tc) = s2.cnext - cur.length := by omega
         rw [this, take_add_drop s2.cblk s2.cnext tc (s2.cnext - cur.length) (by omega) (by omega), ← p3]
@@ -270,8 +283,8 @@ theorem aheadLoop_spec (s : State) (min : Nat) (hi : Inv s) (hf : s.fatal = fals
     have hg' := ih hin (by simp [e8, hf])
     apply good_trans s _ min _ ?_ (by simp [e6]) (by simp [e7]) hg'
     rw [remaining_eq s hi.clientEq, remaining_eq _ hin.clientEq]
-    simp only [List.append_assoc]
-    rw [e1, e2, e3, e5]
+    simp only [List.append_assoc, tailBytes]
+    rw [e1, e2, e3, e5, e10]
     congr 1
     rw [← List.append_assoc, take_drop_add]
 end LA.RA
